@@ -324,9 +324,55 @@ def hyp_shard(acc, n, seed):
     run_given(history, lambda ops: _judge(acc, ops), n, seed)
 
 
+def bulk(acc, rows):
+    """A long-lived journal: thousands of rows in two sessions, holes in the numbering, payloads that contain trailer look-alikes;
+    range queries from below the first stored number, across the holes, across digit-count boundaries, int and str bounds."""
+    j = Journaler()
+    sa, sb = j.create_or_load("A", "B"), j.create_or_load("B", "A")
+    model = {}
+    case = {"bulk": rows}
+
+    def bad(sig, detail):
+        acc.violation("C13:bulk/" + sig, detail, case)
+
+    pay = [b"58=x\x01", b"96=ab\x0110=123\x01zz\x01", b"58=" + b"y" * 300 + b"\x01", b""]
+    for ses, tag in ((sa, "a"), (sb, "b")):
+        for d in (IN, OUT):
+            n = 5
+            for k in range(rows):
+                if k in (rows // 3, rows // 2):
+                    n += 200 if d is OUT else 7  # a hole
+                fr = frame(n, pay[k % 4] + b"10=0%02d\x01" % (k % 100))
+                j.persist_msg(fr, ses, d)
+                model[(tag, d, n)] = fr
+                n += 1
+    hi = max(k[2] for k in model)
+    for ses, tag in ((sa, "a"), (sb, "b")):
+        for d in (IN, OUT):
+            for lo, up in ((1, hi + 10), (0, sys.maxsize), (5, 5), (9, 10), (99, 100), (999, 1000), (998, 1003), (rows // 3, rows // 3 + 300), (hi - 3, hi + 3), (7, 1200), (1001, 1001)):
+                for spell in ("ii", "ss"):
+                    a_, b_ = (str(lo), str(up)) if spell == "ss" else (lo, up)
+                    try:
+                        got = list(j.recover_messages(ses, d, a_, b_))
+                    except Exception as e:
+                        bad(f"range-raises/{type(e).__name__}", f"recover_messages({a_!r},{b_!r}) raised {type(e).__name__}: {e}")
+                        continue
+                    exp = [model[k] for k in sorted(k for k in model if k[0] == tag and k[1] == d and lo <= k[2] <= up)]
+                    if got != exp:
+                        i = next((x for x in range(min(len(got), len(exp))) if got[x] != exp[x]), min(len(got), len(exp)))
+                        bad("range/result", f"recover_messages({a_!r},{b_!r}) {tag}/{d.name}: {len(got)} messages, expected {len(exp)}; first difference at position {i}: "
+                            f"{got[i:i + 1]!r:.120} vs {exp[i:i + 1]!r:.120}")
+                    acc.case(("bulk", tag, d.name, lo, up, spell), cls=["bulk-journal"])
+            n_exp = max(k[2] for k in model if k[0] == tag and k[1] == d) + 1
+            ses2 = j.create_or_load(ses.target_comp_id, ses.sender_comp_id)
+            got_n = ses2.next_num_in if d is IN else ses2.next_num_out
+            if got_n != n_exp:
+                bad("counter", f"{tag}/{d.name}: next number {got_n}, expected {n_exp}")
+
+
 def plan(tier, seed):
     shards, n = (10, 500) if tier == "quick" else (16, 6000)
-    return [("hyp_shard", {"n": n, "seed": derive_seed(seed, PROPERTY, i)}) for i in range(shards)]
+    return [("hyp_shard", {"n": n, "seed": derive_seed(seed, PROPERTY, i)}) for i in range(shards)] + [("bulk", {"rows": 1300 if tier == "quick" else 6000})]
 
 
 def _tup(o):
